@@ -30,9 +30,23 @@ def main():
             return None
         if demo.endswith(".c"):
             txt = open(demo).read()
-            m = re.search(r"((?:gcc|cc|clang)\s[^\n*]*demo%s\.c[^\n*]*)" % n, txt)
-            cmd = m.group(1).strip() if m else "gcc -I%s/src demo%s.c %s/_b/src/libtinyjambu_static.a -o demo%s -lpthread" % (wt, n, wt, n)
-            cmd = cmd.rstrip("\\").strip()
+            lines = txt.splitlines()[:25]
+            cmd = None
+            for i, l in enumerate(lines):
+                if re.search(r"\b(gcc|cc|clang)\s", l) and "demo%s" % n in "".join(lines[i:i + 3]):
+                    parts = []
+                    j = i
+                    while j < len(lines):
+                        t = re.sub(r"^[\s/*]+", "", lines[j]).rstrip()
+                        cont = t.endswith("\\")
+                        parts.append(t.rstrip("\\").strip())
+                        j += 1
+                        if not cont: break
+                    cmd = " ".join(parts)
+                    cmd = cmd[re.search(r"\b(gcc|cc|clang)\s", cmd).start():]
+                    break
+            if not cmd:
+                cmd = "gcc -I%s/src demo%s.c %s/_b/src/libtinyjambu_static.a -o demo%s -lpthread" % (wt, n, wt, n)
             if "-lpthread" not in cmd and "-pthread" not in cmd: cmd += " -lpthread"
             rc, o = sh(cmd, cwd=out)
             if rc: return "build-failed: " + o[-300:]
